@@ -2,4 +2,4 @@
 # usage: process_seed.sh <Cxx> <round>   verifies a sub-agent's change, stores it, runs the property's own check against it
 ID="$1"; R="$2"
 /verif/tools/verify_seed_b.sh "$ID" "$R" 2>&1 | tail -1
-[ -d /verif/seeded/${ID}_${R} ] && /verif/tools/try_seed.sh ${ID}_${R} $ID | grep seed=
+[ -d /verif/seeded/${ID}_${R} ] && /verif/tools/try_seed_wt.sh ${ID}_${R} $ID | grep seed=
